@@ -273,6 +273,7 @@ func genScenarioC15(t *Tape, thorough bool) *Scenario {
 	o.MaxCols = 8
 	o.WideTables = true
 	o.TableIDReuse = true
+	o.AliasMapper = true
 	o.CountChange = true
 	o.UnitWeights = [numUnitKinds]int{uTxXID: 6, uTxCommit: 2, uDDL: 1, uAutoRows: 3, uStmtDML: 0,
 		uTxRollback: 0, uUnknownStmt: 0, uIgnorable: 1, uRotate: 1}
